@@ -45,7 +45,121 @@ def cstrs(l):
     return "[" + "; ".join(cstr(s) for s in l) + "]"
 
 
+def strip_outer(e):
+    """remove parentheses that enclose the whole text (canonical form: compositions add exactly one pair)"""
+    while e.startswith("(") and e.endswith(")"):
+        depth = 0
+        for i, ch in enumerate(e):
+            depth += ch == "("
+            depth -= ch == ")"
+            if depth == 0 and i < len(e) - 1:
+                return e
+        e = e[1:-1].strip()
+    return e
+
+
+def _lin(t):
+    """exact value of an emitted expression text as c0 + cpi*pi + cvar*Var0 (Fractions), or None if it is not of that form"""
+    toks = t.replace("(", " ( ").replace(")", " ) ").split()
+    pos = [0]
+
+    def atom():
+        k = toks[pos[0]]
+        if k == "(":
+            pos[0] += 1
+            v = term()
+            if toks[pos[0]] != ")":
+                raise ValueError
+            pos[0] += 1
+            return v
+        return term()
+
+    def term():
+        k = toks[pos[0]]
+        pos[0] += 1
+        if k == "Pi":
+            return (Fraction(0), Fraction(1), Fraction(0))
+        if k == "Var":
+            if toks[pos[0]] != "0":
+                raise ValueError
+            pos[0] += 1
+            return (Fraction(0), Fraction(0), Fraction(1))
+        if k == "Num":
+            if toks[pos[0]] != "(":
+                raise ValueError
+            pos[0] += 1
+            neg = False
+            if toks[pos[0]] == "(":          # ((-3) # 4)
+                pos[0] += 1
+                num = int(toks[pos[0]])
+                pos[0] += 2
+            else:
+                num = int(toks[pos[0]])
+                pos[0] += 1
+            if toks[pos[0]] != "#":
+                raise ValueError
+            den = int(toks[pos[0] + 1])
+            pos[0] += 3
+            return (Fraction(num, den), Fraction(0), Fraction(0))
+        if k == "Neg":
+            a = atom()
+            return tuple(-x for x in a)
+        if k in ("Add", "Sub", "Mul", "Div"):
+            a, b = atom(), atom()
+            if k == "Add":
+                return tuple(x + y for x, y in zip(a, b))
+            if k == "Sub":
+                return tuple(x - y for x, y in zip(a, b))
+            ca, cb = a[1] == 0 and a[2] == 0, b[1] == 0 and b[2] == 0
+            if k == "Mul":
+                if ca:
+                    return tuple(a[0] * y for y in b)
+                if cb:
+                    return tuple(b[0] * x for x in a)
+                raise ValueError
+            if cb and b[0] != 0:
+                return tuple(x / b[0] for x in a)
+            raise ValueError
+        raise ValueError
+    try:
+        v = term()
+        if pos[0] != len(toks):
+            return None
+        return v
+    except (ValueError, IndexError, ZeroDivisionError):
+        return None
+
+
+def canonical(t):
+    """canonical text of a rational-linear expression in pi and gate.arg_value (exact folding of the literal parts);
+    anything else is left as it is written"""
+    v = _lin(t)
+    if v is None:
+        return t
+    c0, cpi, cv = v
+    parts = []
+    if c0 != 0:
+        parts.append(f"Num {q(c0)}")
+    for c, base in ((cpi, "Pi"), (cv, "Var 0")):
+        if c == 1:
+            parts.append(base)
+        elif c == -1:
+            parts.append(f"Neg ({base})")
+        elif c != 0:
+            parts.append(f"Mul (Num {q(c)}) ({base})")
+    if not parts:
+        return f"Num {q(0)}"
+    out = parts[0]
+    for p_ in parts[1:]:
+        out = f"Add ({out}) ({p_})"
+    return out
+
+
 def ex(n, env, gate="gate"):
+    return canonical(strip_outer(_ex(n, env, gate)))
+
+
+def _ex(n, env, gate="gate"):
     """scalar (angle) expression -> Found.Sym.ex text; gate.arg_value = Var 0"""
     if isinstance(n, ast.Constant):
         v = n.value
@@ -54,6 +168,8 @@ def ex(n, env, gate="gate"):
         return f"Num {q(v)}"
     if isinstance(n, ast.Name):
         if n.id in env:
+            if not isinstance(env[n.id], str):
+                raise Refuse(f"local {n.id} is not a scalar")
             return env[n.id]
         raise Refuse(f"unbound name {n.id}")
     if isinstance(n, ast.Attribute):
@@ -75,8 +191,10 @@ def ex(n, env, gate="gate"):
     raise Refuse(f"scalar node {type(n).__name__}")
 
 
-def qroles(n, gate="gate"):
-    """qubit argument of Gate(...) -> list of role texts"""
+def qroles(n, gate="gate", env=None):
+    """qubit argument of Gate(...) -> list of role texts.  Locals bound to qubit expressions (`first = gate.targets[0]`) are
+    kept in env as ("Q", roles, is_scalar); their use is recorded in env["__used__"]."""
+    env = env if env is not None else {}
     if n is None or (isinstance(n, ast.Constant) and n.value is None):
         return []
     t = ast.unparse(n)
@@ -84,6 +202,9 @@ def qroles(n, gate="gate"):
         return ["AllT"]
     if t == gate + ".controls":
         return ["AllC"]
+    if isinstance(n, ast.Name) and isinstance(env.get(n.id), tuple) and env[n.id][0] == "Q":
+        env.setdefault("__used__", set()).add(n.id)
+        return list(env[n.id][1])
     if isinstance(n, ast.Subscript) and isinstance(n.slice, ast.Constant) and isinstance(n.slice.value, int) \
             and not isinstance(n.slice.value, bool) and n.slice.value >= 0:
         b = ast.unparse(n.value)
@@ -95,11 +216,26 @@ def qroles(n, gate="gate"):
     if isinstance(n, ast.List):
         out = []
         for e in n.elts:
-            if not isinstance(e, ast.Subscript):
+            if isinstance(e, ast.Subscript):
+                out += qroles(e, gate, env)
+            elif isinstance(e, ast.Name) and isinstance(env.get(e.id), tuple) and env[e.id][0] == "Q" and env[e.id][2]:
+                out += qroles(e, gate, env)       # a local holding ONE qubit index
+            else:
                 raise Refuse("list element is not an indexed qubit")
-            out += qroles(e, gate)
         return out
     raise Refuse(f"qubit argument {t}")
+
+
+def qubit_local(n, gate, env):
+    """value of `name = <qubit expression>` -> ("Q", roles, holds a single index) or None"""
+    try:
+        r = qroles(n, gate, env)
+    except Refuse:
+        return None
+    if n is None or isinstance(n, ast.Constant):
+        return None
+    single = isinstance(n, ast.Subscript) or (isinstance(n, ast.Name) and env[n.id][2])
+    return ("Q", r, single)
 
 
 def gate_call(c, env, gate="gate"):
@@ -140,15 +276,17 @@ def gate_call(c, env, gate="gate"):
         name = f"NPrefix {cstr(nm.left.value)}"
     else:
         raise Refuse("gate name " + ast.unparse(nm))
-    tg = qroles(d.get("targets"), gate)
-    ct = qroles(d.get("controls"), gate)
+    tg = qroles(d.get("targets"), gate, env)
+    ct = qroles(d.get("controls"), gate, env)
     av = d.get("arg_value")
     if av is None or (isinstance(av, ast.Constant) and av.value is None):
         arg = "ANone"
     elif ast.unparse(av) == gate + ".arg_value":
         arg = "ACopy"
     else:
-        arg = f"AExpr ({ex(av, env, gate)})"
+        e = ex(av, env, gate)
+        alias = isinstance(av, ast.Name) and e == "Var 0" and av.id in env.get("__alias__", set())
+        arg = "ACopy" if alias else f"AExpr ({e})"      # a local alias of gate.arg_value is still a plain copy
     return f"EGate ({name}) [{'; '.join(tg)}] [{'; '.join(ct)}] ({arg})"
 
 
@@ -218,6 +356,90 @@ def flatten_if(node):
         return chain, oe
 
 
+def const_table(n, env):
+    """literal tuple/list of constant rows (or a local bound to one) -> list of rows (tuples of str/int/float) or None"""
+    if isinstance(n, ast.Name) and isinstance(env.get(n.id), tuple) and env[n.id][0] == "T":
+        return env[n.id][1]
+    if not isinstance(n, (ast.Tuple, ast.List)) or not n.elts:
+        return None
+    rows = []
+    for r in n.elts:
+        cells = r.elts if isinstance(r, (ast.Tuple, ast.List)) else [r]
+        if not cells or not all(isinstance(c, ast.Constant) and isinstance(c.value, (str, int, float)) and not isinstance(c.value, bool)
+                                for c in cells):
+            return None
+        rows.append((isinstance(r, (ast.Tuple, ast.List)), tuple(c.value for c in cells)))
+    if len({(k, len(v)) for k, v in rows}) != 1:
+        return None
+    return rows
+
+
+class _Subst(ast.NodeTransformer):
+    def __init__(self, mp):
+        self.mp = mp
+
+    def visit_Name(self, n):
+        if n.id in self.mp:
+            if not isinstance(n.ctx, ast.Load):
+                raise Refuse(f"loop variable {n.id} is assigned in the loop body")
+            return ast.copy_location(ast.Constant(value=self.mp[n.id]), n)
+        return n
+
+
+def expand_for(st, env):
+    """`for a, b in <constant table>: BODY [else: E]` -> the statements it stands for, or None if st is not such a loop.
+    Accepted bodies: no break/continue at all (the bodies one after the other, then E), or exactly `if TEST: ...; break`
+    (an if/elif chain over the rows with E as the final else; TEST must be a pure comparison)."""
+    if not isinstance(st, ast.For):
+        return None
+    rows = const_table(st.iter, env)
+    if rows is None:
+        return None
+    import copy
+    if isinstance(st.target, ast.Name):
+        names = [st.target.id]
+        if rows[0][0]:
+            raise Refuse("loop over rows with a single loop variable")
+    elif isinstance(st.target, (ast.Tuple, ast.List)) and all(isinstance(e, ast.Name) for e in st.target.elts):
+        names = [e.id for e in st.target.elts]
+        if not rows[0][0] or len(names) != len(rows[0][1]) or len(set(names)) != len(names):
+            raise Refuse("loop targets do not match the table rows")
+    else:
+        raise Refuse("loop target over a constant table")
+    body = strip_doc(st.body)
+    orelse = strip_doc(st.orelse)
+    jumps = [n for x in body for n in ast.walk(x) if isinstance(n, (ast.Break, ast.Continue, ast.Return))]
+
+    def inst(stmts, row):
+        return [ast.fix_missing_locations(_Subst(dict(zip(names, row))).visit(copy.deepcopy(x))) for x in stmts]
+    if not jumps:
+        out = []
+        for _, row in rows:
+            out += inst(body, row)
+        return out + orelse
+    if len(body) == 1 and isinstance(body[0], ast.If) and not strip_doc(body[0].orelse) and len(jumps) == 1 \
+            and isinstance(jumps[0], ast.Break) and strip_doc(body[0].body) and strip_doc(body[0].body)[-1] is jumps[0]:
+        test = body[0].test
+        if any(isinstance(n, (ast.Call, ast.NamedExpr, ast.Await, ast.Yield, ast.YieldFrom, ast.Lambda)) for n in ast.walk(test)):
+            raise Refuse("table loop: the test is not a pure comparison")
+        inner = strip_doc(body[0].body)[:-1]
+        chain = None
+        for _, row in reversed(rows):
+            node = ast.If(test=inst([ast.Expr(value=test)], row)[0].value, body=inst(inner, row) or [ast.Pass()],
+                          orelse=[chain] if chain is not None else (orelse or []))
+            chain = ast.copy_location(node, st)
+        return [ast.fix_missing_locations(chain)]
+    raise Refuse("table loop with an unsupported break/continue structure")
+
+
+def expand_stmts(stmts, env):
+    out = []
+    for st in stmts:
+        e = expand_for(st, env)
+        out += [st] if e is None else expand_stmts(e, env)
+    return out
+
+
 def append_arg(st, dest):
     """`dest.append(x)` -> x, else None"""
     if isinstance(st, ast.Expr) and isinstance(st.value, ast.Call) and isinstance(st.value.func, ast.Attribute) \
@@ -228,23 +450,42 @@ def append_arg(st, dest):
 
 
 def emits(stmts, env, dest, gate="gate"):
-    """straight-line code appending gates to `dest` -> list of emit texts.  Local constants (name = expression over pi and
-    earlier names) are kept in the environment `env`, wherever they are written."""
+    """straight-line code appending gates to `dest` -> list of emit texts.  The environment `env` holds the local
+    temporaries of the block: scalar constants (name = expression over pi and earlier names), qubit locals
+    (name = gate.targets[0]) and constant tables; loops over constant tables are unrolled."""
     out = []
+    here = []     # qubit locals read in this block whose evaluation can fail (an index): they must be used in this block
 
     def one(a):
         if isinstance(a, ast.Name) and a.id == gate:
             return "ESame"
         return gate_call(a, env, gate)
-    for st in strip_doc(stmts):
+
+    def bind(nm, value):
+        if nm in (gate, dest.split(".")[0]):
+            raise Refuse(f"assignment to {nm}")
+        tb = const_table(value, env) if isinstance(value, (ast.Tuple, ast.List)) else None
+        if tb is not None:
+            env[nm] = ("T", tb)
+            return
+        ql = qubit_local(value, gate, env)
+        if ql is not None:
+            env[nm] = ql
+            if any(r.startswith(("TIdx", "CIdx")) for r in ql[1]):
+                here.append(nm)
+            env.get("__used__", set()).discard(nm)
+            return
+        env[nm] = ex(value, env, gate)
+        al = env.setdefault("__alias__", set())
+        if ast.unparse(value) == gate + ".arg_value" or (isinstance(value, ast.Name) and value.id in al):
+            al.add(nm)
+        else:
+            al.discard(nm)
+    for st in expand_stmts(strip_doc(stmts), env):
         if isinstance(st, ast.Assign) and len(st.targets) == 1 and isinstance(st.targets[0], ast.Name):
-            if st.targets[0].id in (gate, dest.split(".")[0]):
-                raise Refuse(f"assignment to {st.targets[0].id}")
-            env[st.targets[0].id] = "(" + ex(st.value, env, gate) + ")"
+            bind(st.targets[0].id, st.value)
         elif isinstance(st, ast.AnnAssign) and isinstance(st.target, ast.Name) and st.value is not None and st.simple:
-            if st.target.id in (gate, dest.split(".")[0]):
-                raise Refuse(f"assignment to {st.target.id}")
-            env[st.target.id] = "(" + ex(st.value, env, gate) + ")"
+            bind(st.target.id, st.value)
         elif append_arg(st, dest) is not None:
             out.append(one(append_arg(st, dest)))
         elif isinstance(st, ast.AugAssign) and isinstance(st.op, ast.Add) and ast.unparse(st.target) == dest \
@@ -259,7 +500,11 @@ def emits(stmts, env, dest, gate="gate"):
                 and not st.value.keywords and isinstance(st.value.args[0], (ast.List, ast.Tuple)):
             out += [one(el) for el in st.value.args[0].elts]
         else:
-            raise Refuse(f"statement {type(st).__name__} at line {st.lineno}: {ast.unparse(st)[:70]}")
+            raise Refuse(f"statement {type(st).__name__} at line {getattr(st, 'lineno', 0)}: {ast.unparse(st)[:70]}")
+    unused = [nm for nm in here if nm not in env.get("__used__", set())]
+    if unused:
+        # reading gate.targets[i] raises for a short list; an unused read has no counterpart in the emitted data
+        raise Refuse(f"qubit local {unused[0]} is read but not used in its block")
     return out
 
 
@@ -277,15 +522,19 @@ def name_test(t, gate="gate"):
 def branches(loop_body, env, dest, parse_test, gate="gate"):
     """body of `for gate in ...:` = local constants + one if/elif chain on the gate name ending in `else: dest.append(gate)`
     -> [(name, [emit])]"""
-    body = strip_doc(loop_body)
+    body = expand_stmts(strip_doc(loop_body), env)
     ifs = [s for s in body if isinstance(s, ast.If)]
     if len(ifs) != 1 or body[-1] is not ifs[0]:
         raise Refuse("loop body is not (local constants; one if/elif chain)")
     if emits(body[:-1], env, dest, gate):
         raise Refuse("gate appended before the if chain")
     chain, els = flatten_if(ifs[0])
-    out = [(parse_test(t), emits(b, dict(env), dest, gate)) for t, b in chain]
-    if emits(els, dict(env), dest, gate) != ["ESame"]:
+    def blk():
+        e = dict(env)
+        e["__used__"] = set()
+        return e
+    out = [(parse_test(t), emits(b, blk(), dest, gate)) for t, b in chain]
+    if emits(els, blk(), dest, gate) != ["ESame"]:
         raise Refuse("chain does not end in `else: append(gate)`")
     names = [n for n, _ in out]
     if len(set(names)) != len(names):
@@ -380,7 +629,37 @@ def translate_decompose(path):
     table = {}     # N -> X   (module order; a later binding overrides an earlier one like in Python)
     passes = {}
     seen_dispatch = set()
+    # module-level constants (scalars over pi, constant tables): globals are looked up when a rule runs, so their position in
+    # the module does not matter; they must be bound exactly once and never rebound from inside a function
+    menv = {}
+    const_nodes = set()
     for node in mod.body:
+        if isinstance(node, ast.Assign) and len(node.targets) == 1 and isinstance(node.targets[0], ast.Name) \
+                and not node.targets[0].id.startswith(("_gate_", "_basis_", "__")) and not isinstance(node.value, ast.Name):
+            nm = node.targets[0].id
+            try:
+                if nm in menv:
+                    raise Refuse("bound twice")
+                tb = const_table(node.value, menv) if isinstance(node.value, (ast.Tuple, ast.List)) else None
+                menv[nm] = ("T", tb) if tb is not None else ex(node.value, menv, "__no_gate__")
+            except Refuse as r:
+                raise Broken(f"{where}:{nm}", "module-level constant: " + str(r))
+            const_nodes.add(id(node))
+    for n in ast.walk(mod):
+        if isinstance(n, (ast.Global, ast.Nonlocal)):
+            raise Broken(where, "global/nonlocal statement")
+        if isinstance(n, (ast.AugAssign, ast.Delete)) and any(isinstance(t, ast.Name) and t.id in menv
+                                                                for t in ([n.target] if isinstance(n, ast.AugAssign) else n.targets)):
+            raise Broken(where, "module-level constant is modified")
+
+    def fenv(fd):
+        """the module constants a function sees: those it does not shadow by a local of the same name"""
+        local = {n.id for n in ast.walk(fd) if isinstance(n, ast.Name) and isinstance(n.ctx, ast.Store)} | \
+                {a.arg for a in fd.args.args}
+        return {k: v for k, v in menv.items() if k not in local}
+    for node in mod.body:
+        if id(node) in const_nodes:
+            continue
         if isinstance(node, ast.FunctionDef) and node.name.startswith("_gate_"):
             X = node.name[len("_gate_"):]
             try:
@@ -393,7 +672,7 @@ def translate_decompose(path):
                         raise Refuse(f"rule raises {en or 'nothing'} (only NotImplementedError is modelled)")
                     defs[X] = "RRaise"
                 else:
-                    defs[X] = "REmit [" + "; ".join(emits(body, {}, out, g)) + "]"
+                    defs[X] = "REmit [" + "; ".join(emits(body, fenv(node), out, g)) + "]"
             except Refuse as r:
                 raise Broken(f"{where}:{node.name}", str(r))
             table[X] = X
@@ -403,8 +682,8 @@ def translate_decompose(path):
                 qc, temp = positional(node, 2)
                 dest = qc + ".gates"
                 body = strip_doc(node.body)
-                env = {}
-                loops = [s for s in body if isinstance(s, ast.For)]
+                env = fenv(node)
+                loops = [s for s in body if isinstance(s, ast.For) and const_table(s.iter, env) is None]
                 if len(loops) != 1 or body[-1] is not loops[0]:
                     raise Refuse("body is not (local constants; one loop over the gates)")
                 if emits(body[:-1], env, dest, "__no_gate__"):
@@ -797,15 +1076,21 @@ def translate_resolve(path):
                     seen["temp_resolved"] = i
                     continue
                 if isinstance(st.value, (ast.List, ast.Tuple)) and st.value.elts and nm not in consts and nm not in seen \
-                        and nm not in ("basis", "basis_1q", "basis_2q", "gate", "self"):
-                    consts[nm] = str_list(st.value)
+                        and nm not in scal and nm not in ("basis", "basis_1q", "basis_2q", "gate", "self"):
+                    try:
+                        consts[nm] = str_list(st.value)
+                    except Refuse:
+                        tb = const_table(st.value, scal)
+                        if tb is None:
+                            raise
+                        scal[nm] = ("T", tb)
                     continue
                 if _meas_count(st.value) and nm not in consts and nm not in seen:
                     counts.add(nm)
                     continue
                 if nm not in consts and nm not in seen and nm not in scal and nm not in ("basis", "basis_1q", "basis_2q", "gate", "self"):
                     try:
-                        scal[nm] = "(" + ex(st.value, scal) + ")"      # hoisted local constant (pi, half_pi, ...)
+                        scal[nm] = ex(st.value, scal)      # hoisted local constant (pi, half_pi, ...)
                         continue
                     except Refuse:
                         pass
